@@ -46,7 +46,7 @@ m = {
                                    "and, for straight-line integer kernels, regenerated from the clang AST by gen/translate.py"}],
     "checks": checks,
     "not_applicable": na,
-    "notes": "Approach, trusted base, per-property obligations and findings: DESIGN.md. Known findings and fixes: known_findings.json.",
+    "notes": "Approach, trusted base, per-property obligations and findings: DESIGN.md. Known findings and fixes: known_findings.json and known_findings.d/Cxx.json (entries with status known / fixed; DESIGN.md §0a, §5a).",
 }
 json.dump(m, open(os.path.join(VERIF, "MANIFEST.json"), "w"), indent=1)
 print("claimed:", served)
